@@ -16,7 +16,7 @@ from ..domains import AbsStr
 from ..affine import Aff, LenStr
 from ..interp import AbstractValue, Unknown, enumerate_paths
 from ..interp import Interp
-from ..interp import Oracle, Obj, Unknown, enumerate_paths, Raised, LoopTruncated, PathLimit, MISSING
+from ..interp import Oracle, Obj, Unknown, enumerate_paths, Raised, LoopTruncated, PathLimit, MISSING, _MISSING
 from ..model import AnalysisError, ClassInfo, ValueRef, loc, PKG
 from .. import tokens as tk
 from . import c13, c11
@@ -122,6 +122,143 @@ def rule_content_rows(ctx, rep):
                  % (''.join(lines), rd.short, res[0], res[1], want, left, len(rows)),
                  loc(model.unit_of(rd), rd.node), witness=''.join(lines))
     rep.floor(rule, n, 25)
+
+
+MARKER_LINE = r' {0,3}(?:[-+*]|[0-9]{1,9}[.)])(?: [^\n]*)?\n'
+
+
+def rule_marker_claim(ctx, rep):
+    """A line that begins with a list marker reaches List.start unless CommonMark gives it to a block that is tried
+    earlier (the marker / thematic break coincidences "- - -", "* * *"): language of every earlier regex start,
+    intersected with the marker lines, is included in the specification's language for that block."""
+    from . import c14
+    from .. import rx
+    from ..spec import blockstart
+    model = ctx.model
+    rule = 'R-MARKER-CLAIM'
+    rep.rule(rule, 'no block start tried before List claims a list-marker line that CommonMark does not give it')
+    cfg = [c for c in ctx.configs() if c.label == 'HtmlRenderer' and not c.options][0]
+    order = [c.short for c in cfg.block_types]
+    if 'block_token.List' not in order:
+        raise AnalysisError('anchor vanished: List is not an active block token')
+    earlier = set(order[:order.index('block_token.List')])
+    A = rx.ALPHABET_CORE
+    marker = rx.Lang(MARKER_LINE, mode='full', alphabet=A)
+    n = 0
+    for cls_short, method, spec_name in c14.TARGETS:
+        if cls_short not in earlier or method != 'start':
+            continue
+        rxv = c14.start_pattern(ctx, cls_short, method)
+        rep.instance(rule)
+        n += 1
+        L = rx.Lang(rxv.pattern, rxv.flags, mode='match', alphabet=A)
+        S = rx.Lang(blockstart.SPEC[spec_name], mode='full', alphabet=A)
+        w = rx.witness([L, marker, rx.line_lang(A)], [S], A)
+        rep.obligation(rule, w is None, {'start': cls_short, 'pattern': rxv.pattern, 'witness': w})
+        if w is not None:
+            cls = model.cls(cls_short)
+            rep.find(rule, '%s.%s' % (cls.short, method), 'claims-marker-line',
+                     '%s.%s, tried before List.start, accepts the list item line %r, which is not a %s in CommonMark: '
+                     'the wrapped text is not parsed as one single-item list' % (cls.short, method, w, spec_name),
+                     loc(model.unit_of(cls), cls.lookup(method)[1].node), witness=w)
+    rep.floor(rule, n, 2)
+
+
+INTACT_ROWS = [['- a\n'], ['- [x] a\n'], ['- [ ] a\n', '  b\n'], ['> a\n'], ['> [x] a\n', '> b\n'], ['- a\n', '\n', '  b\n'],
+               ['1. # h\n'], ['- > q\n'], ['> - a\n'], ['- \\[x] a\n'], ['> 1. a\n', '>\n', '>    b\n'], ['-     code\n']]
+
+
+def _snap(v, depth=0):
+    """Content of a parse buffer, whatever its layout: nested lists, tuples and strings by value, classes by name,
+    other objects by kind."""
+    from ..model import ClassInfo
+    if isinstance(v, (str, int, bool)) or v is None:
+        return v
+    if depth > 8:
+        return '...'
+    if isinstance(v, Obj):
+        return (v.cls.name,) + tuple(sorted((k, _snap(x, depth + 1)) for k, x in v.attrs.items()
+                                            if isinstance(x, (list, tuple))))      # the blocks, not flags such as loose
+    if isinstance(v, (list, tuple)):
+        return tuple(_snap(x, depth + 1) for x in v)
+    if isinstance(v, ClassInfo):
+        return v.name
+    return type(v).__name__
+
+
+def rule_buffer_intact(ctx, rep):
+    """The content of a container is what the nested tokenizer made of the content lines: the parse buffer it returns
+    reaches make_tokens with the same content (no constructor rewrites the blocks it was given). The block tokenizer
+    and make_tokens are folded on INTACT_ROWS; every buffer a nested tokenize_block returned is compared by value with
+    the arguments of the nested make_tokens calls."""
+    model = ctx.model
+    rule = 'R-BUFFER-INTACT'
+    rep.rule(rule, 'the buffer a nested tokenize_block returns reaches make_tokens with unchanged content')
+    tb = model.func('block_tokenizer.tokenize_block')
+    mt = model.func('block_tokenizer.make_tokens')
+    active_types = blockproto.default_block_types(ctx)
+    bad = []
+    n = 0
+    for lines in INTACT_ROWS:
+        rep.instance(rule)
+        it = Interp(model, loop_bound=16, while_bound=16)
+        it.reset_run(Oracle())
+        it.gstate[(PKG + '.block_token', '_token_types')] = list(active_types)
+        returned, made = [], []
+        st = {'tb': False, 'mt': False, 'tb_depth': 0, 'mt_depth': 0}
+
+        def h_tb(interp, fi, args, kwargs, st=st, returned=returned):
+            if st['tb']:
+                st['tb'] = False
+                return _MISSING
+            st['tb'] = True
+            st['tb_depth'] += 1
+            try:
+                r = interp.call_function(fi, args, kwargs)
+            finally:
+                st['tb_depth'] -= 1
+            if st['tb_depth'] > 0:
+                returned.append(_snap(r))
+            return r
+
+        def h_mt(interp, fi, args, kwargs, st=st, made=made):
+            if st['mt']:
+                st['mt'] = False
+                return _MISSING
+            if st['mt_depth'] > 0:
+                made.append(_snap(args[0] if args else None))
+            st['mt'] = True
+            st['mt_depth'] += 1
+            try:
+                return interp.call_function(fi, args, kwargs)
+            finally:
+                st['mt_depth'] -= 1
+        it.func_hooks[tb.qualname] = h_tb
+        it.func_hooks[mt.qualname] = h_mt
+        # inline content is not looked at here
+        it.func_hooks[model.func('span_token.tokenize_inner').qualname] = lambda interp, fi, args, kwargs: []
+        try:
+            pb = it.call_function(tb, [list(lines), list(active_types)], {})
+            it.call_function(mt, [pb], {})
+            res = None
+        except Raised as r:
+            res = 'raises %s' % r.exc.kind
+        n += 1
+        lost = [b for b in returned if b not in made]
+        ok = res is None and returned and not lost
+        rep.obligation(rule, bool(ok), {'source': lines, 'nested buffers': len(returned), 'buffers given to make_tokens': len(made),
+                                        'changed': [repr(b)[:120] for b in lost], 'outcome': res})
+        if not ok:
+            bad.append((lines, res, lost, made))
+    if bad:
+        lines, res, lost, made = bad[0]
+        rep.find(rule, mt.short, 'row:%s' % ''.join(lines).replace('\n', '|'),
+                 'on the source %r %s (%d row(s) differ)'
+                 % (''.join(lines), res or ('the nested tokenizer returned %r but no make_tokens call gets a buffer with that '
+                                            'content (it gets %r): a constructor rewrites the blocks of its content'
+                                            % (lost[0] if lost else None, made[:2])), len(bad)),
+                 loc(model.unit_of(mt), mt.node), witness=''.join(lines))
+    rep.floor(rule, n, 10)
 
 
 def rule_strip_provenance(ctx, rep):
@@ -404,6 +541,8 @@ def run(ctx):
     # beginning of the input specially (shared with C15)
     from . import c15
     c15.rule_normal_form(ctx, rep)
+    rule_marker_claim(ctx, rep)
+    rule_buffer_intact(ctx, rep)
     # R-NEST-PHASE (shared with C07 clause c)
     from . import c07
     cg = ctx.callgraph()
